@@ -62,6 +62,8 @@ class RunInfo:
         storage: str | dict[OUTPUT_TYPE, str],
         cleanup: bool = True,
     ) -> RunInfo:
+        for name in {storage} if isinstance(storage, str) else set(storage.values()):
+            get_storage_class(name)  # raises for an unknown storage before anything is written
         run_folder = _maybe_run_folder(run_folder, storage)
         if run_folder is not None:
             if cleanup:
